@@ -197,6 +197,9 @@ pub(crate) fn convert_svg(
             NonZeroRect::from_xywh(x, y, w, h).unwrap_or(state.view_box)
         }
     };
+    // The size set on a `use` element overrides the size of the `svg` it references,
+    // not the sizes of `svg` elements nested inside of that one.
+    new_state.use_size = (None, None);
 
     if let Some(clip_rect) = get_clip_rect(node, node, state) {
         let mut g = clip_element(node, clip_rect, orig_ts, state, cache);
